@@ -319,3 +319,22 @@ _ROUND7 = {
 }
 for _k, _v in _ROUND7.items():
     CLAIMS[_k]['decides'] += _v
+
+# clauses added with validation round 8 and the defects found in it (DESIGN.md 11.3 / 11.5)
+_ROUND8 = {
+    'C01': ' With a build-log entry only a generator rule is declared clean without comparing the command hash. What the first visit of an edge found out about its discovered deps (deps_missing_) is cleared only on a visit that loads them and is consulted on later visits.',
+    'C03': ' Plan::CleanNode re-checks every dependent that is wanted, has its deps and has only clean regular inputs - nothing else skips a dependent.',
+    'C05': ' While commands are pending Builder::Build returns only after Cleanup(); the result of a fallible call stored in a local is looked at before the local is overwritten or a success value is returned.',
+    'C06': ' Every Builder::Build started by NinjaMain (main build and manifest regeneration) is preceded by SetupJobserverClient whose result is handed to that builder.',
+    'C07': ' A failed or interrupted manifest regeneration leaves RebuildManifest with the status of its Builder::Build and real_main exits with that status.',
+    'C08': ' The close of the rewritten log is tested and its failure does not reach ReplaceContent; ReplaceContent does not fail because the destination is already gone.',
+    'C09': ' DepsLog::UpdateDeps installs the record it is given on every path.',
+    'C10': ' The range a dep loader reports for the follow-up scan begins at the insertion point (insert() / PreallocateSpace() result or an expression over order_only_deps_).',
+    'C12': ' State::RootNodes collects an output exactly when it has no out-edge, over all outputs of all edges (validations are not uses).',
+    'C13': ' A position given to substr / erase / insert / replace / compare is not the unchecked result of a find*() (controls in fixtures); a nullable result stays checked across pointer arithmetic.',
+    'C18': ' The clean tools reach no file-system mutation except through Cleaner::RemoveFile; a build-log key is dead only if its node has no producer, no consumer and validates nothing (known finding: deps-log-only users are not seen).',
+    'C19': ' NinjaMain::build_dir_ is set from the manifest independently of -n and before EnsureBuildDirExists reports success.',
+    'C20': ' Only a console command has its output / FAILED header printed without its status line directly before.',
+}
+for _k, _v in _ROUND8.items():
+    CLAIMS[_k]['decides'] += _v
